@@ -203,10 +203,10 @@ func TestC16(t *testing.T) {
 		}
 	}
 
-	{
-		env := &raceEnv{inv: &cache.Invalidator{SkipInterval: time.Nanosecond, Callbacks: []func(context.Context){func(context.Context) {}}}}
+	for _, skip := range []time.Duration{time.Nanosecond, 0} { // 0: the default interval is filled in by the first call
+		env := &raceEnv{inv: &cache.Invalidator{SkipInterval: skip, Callbacks: []func(context.Context){func(context.Context) {}}}}
 		op := raceOp{"Invalidate", func(e *raceEnv, g, i int) { _ = e.inv.Invalidate(ctx) }}
-		marker("Invalidator", "Invalidate", "Invalidate")
+		marker("Invalidator", "Invalidate", fmt.Sprintf("Invalidate/skip=%v", skip))
 		runPair(op, op, env, iters)
 	}
 
